@@ -1,6 +1,11 @@
 package coordx
 
 import (
+	"fmt"
+	"strings"
+
+	"github.com/oxia-db/oxia/common/process"
+
 	"io"
 	"log/slog"
 	"os"
@@ -22,8 +27,26 @@ func TestMain(m *testing.M) {
 	if err != nil {
 		panic(err)
 	}
+	process.VerifPanicHandler = func(labels map[string]string, v any, stack []byte) {
+		msg := fmt.Sprintf("%v (goroutine %v)", v, labels["oxia"])
+		for _, l := range strings.Split(string(stack), "\n") {
+			if strings.Contains(l, "github.com/oxia-db/oxia/coordinator") {
+				msg += " at " + strings.TrimSpace(l)
+				break
+			}
+		}
+		select {
+		case goroutinePanics <- msg:
+		default:
+		}
+	}
 	code := m.Run()
 	evid.Flush()
 	_ = os.RemoveAll(tmpRoot)
 	os.Exit(code)
 }
+
+
+// goroutinePanics receives panics raised on goroutines that oxia started through process.DoWithLabels (the
+// balancer round runs on one): the case that triggered it fails with its history instead of the process dying.
+var goroutinePanics = make(chan string, 16)
